@@ -362,6 +362,8 @@ Definition intersect := intersect_gen current.
 Definition parse := parse_gen current.
 Definition parse_tuple := parse_tuple_gen current.
 Definition accepted (r : tr) (ops : list op) : list bool := fst (run r ops).
+(* pointwise conjunction of two verdict sequences = membership in the intersection of the accepted sets *)
+Definition and_lists (a b : list bool) : list bool := map (fun p => fst p && snd p) (combine a b).
 
 (* a range on which no message has been tested since construction / restart, with consistent metadata *)
 Definition fresh (r : tr) : Prop :=
@@ -387,6 +389,13 @@ Definition describe_text (sh : shape) (absarg : option bool) (vs ve : option ext
   | S1 _ => mkargs (opt_arg vs) ANone absarg None
   | S2 _ _ => mkargs (opt_arg vs) (opt_arg ve) absarg None
   | S3 _ _ k => mkargs (opt_arg vs) (opt_arg ve) (Some k) None
+  end.
+
+(* the fields of a text are free of separators and have the values vs / ve *)
+Definition fields_ok (sh : shape) (vs ve : option ext) : Prop :=
+  match sh with
+  | S1 a => no_sep a = true /\ field_value a vs /\ ve = None
+  | S2 a b | S3 a b _ => no_sep a = true /\ no_sep b = true /\ field_value a vs /\ field_value b ve
   end.
 
 (* ---- when intersect may combine two ranges: they must measure relative time from one origin ---- *)
